@@ -67,6 +67,35 @@ package proto
 //@ interface ColInput.Rows(c) (n)
 //@   ensures n == c.nrows && 0 <= n
 
+//@ -- optional column capabilities reached by type assertion: they touch neither the row count nor
+//@ -- anything but the stream / the output buffer
+//@ interface StateDecoder.DecodeState(c, r) (err)
+//@   requires r != nil
+//@   modifies r.pos, r.failed, r.b.Buf
+//@   ensures err == nil ==> r.failed == old(r.failed)
+//@   ensures old(r.pos) <= r.pos && r.pos <= r.end
+//@ interface StateEncoder.EncodeState(c, b)
+//@   requires b != nil
+//@   modifies b.Buf
+//@   ensures appendsOnly(b)
+
+//@ -- Binding a block to caller-supplied targets.  Per-iteration form of "every column reports the
+//@ -- block's row count": each loop iteration leaves ITS target at exactly b.Rows rows (reset first,
+//@ -- then decoded) - by induction over the loop that is every target; the quantified statement over
+//@ -- all targets is not expressible over a slice of interface values in this verifier.
+//@ -- a bound target always carries a column (a nil Data is caller misuse, not hostile input)
+//@ valid (c ResultColumn): c.Data != nil
+//@ contract (s Results) DecodeResult(r, version, b) (err) props(C06,C07,C16,C18)
+//@   requires r != nil && 0 <= b.Rows && b.Rows <= maxRowsInBLock && 0 <= b.Columns
+//@   modifies all(s), r.pos, r.failed, r.b.Buf
+//@   ensures b.Columns != len(s) && !(len(s) == 0 && b.Rows == 0) ==> err != nil [C18] {column-count-mismatch-is-an-error}
+//@   ensures err == nil ==> r.failed == old(r.failed)
+//@ loop 0 (i)
+//@   modifies all(s), r.pos, r.failed, r.b.Buf
+//@   invariant 0 <= i && i <= b.Columns && (len(s) > 0 ==> b.Columns == len(s))
+//@   invariant r.failed == old(r.failed) && old(r.pos) <= r.pos && r.pos <= r.end
+//@   invariant len(s) > 0 && i >= 1 ==> s[i - 1].Data.nrows == b.Rows {each-iteration-leaves-its-target-at-the-block-row-count}
+
 //@ contract checkRows(n) (err) props(C06)
 //@   ensures err == nil <==> (0 <= n && n <= maxRowsInBLock)
 
@@ -266,3 +295,28 @@ package proto
 //@ loop 0 (rangeindex)
 //@   modifies c.Values
 //@   invariant -1 <= rangeindex && rangeindex < len(c.keys) && len(c.Values) == rangeindex + 1
+
+// ---------------------------------------------------------------------------
+// Enum inference helper: Values (strings) are the logical content; raw8/raw16 are rebuilt from
+// them by every Prepare, whatever they held before (C16).
+
+//@ contract (e *ColEnum) Prepare() (err) props(C01,C16)
+//@   requires e != nil
+//@   modifies e.raw8, e.raw16
+//@   ensures err == nil && e.base == ColumnTypeEnum8 ==> len(e.raw8) == len(e.Values) {one-raw-value-per-row}
+//@   ensures err == nil && e.base == ColumnTypeEnum16 ==> len(e.raw16) == len(e.Values) {one-raw-value-per-row-16}
+//@   ensures err == nil && len(e.Values) > 0 ==> e.base == ColumnTypeEnum8 || e.base == ColumnTypeEnum16 {known-base}
+//@ loop 0 (rangeindex)
+//@   modifies e.raw8, e.raw16
+//@   invariant -1 <= rangeindex && rangeindex < len(e.Values)
+//@   invariant e.base == ColumnTypeEnum8 ==> len(e.raw8) == rangeindex + 1
+//@   invariant e.base == ColumnTypeEnum16 ==> len(e.raw16) == rangeindex + 1
+//@   invariant rangeindex >= 0 ==> e.base == ColumnTypeEnum8 || e.base == ColumnTypeEnum16
+
+//@ contract (e *ColEnum) Rows() (n) props(C01,C06,C16)
+//@   requires e != nil
+//@   ensures n == len(e.Values)
+//@ contract (e *ColEnum) Append(v) props(C16)
+//@   requires e != nil
+//@   modifies e.Values
+//@   ensures len(e.Values) == old(len(e.Values)) + 1 {appends-one}
